@@ -72,6 +72,26 @@ fn one_eval(name: &str, op: Operation, a: &BigUint, b: &BigUint) -> Value {
             Err(m) => ev["mont"] = json!({"res": "panic", "msg": m.chars().take(80).collect::<String>()}),
         }
     }
+    if name == "Pow" {
+        // certificate for the judge: the square-and-multiply chain of a^b, every product with its quotient
+        // (computed here with big integers, independently of the evaluator; TLC checks every step and the end value)
+        let p = modulus();
+        let mut acc = BigUint::from(1u8);
+        let mut cert = Vec::new();
+        for i in (0..b.bits()).rev() {
+            let sq_full = &acc * &acc;
+            let (sq_q, sq) = (&sq_full / &p, &sq_full % &p);
+            let (out, mq) = if b.bit(i) {
+                let m = &sq * a;
+                (&m % &p, &m / &p)
+            } else {
+                (sq.clone(), BigUint::from(0u8))
+            };
+            cert.push(json!({"s": le(&sq), "sq": le(&sq_q), "out": le(&out), "mq": le(&mq)}));
+            acc = out;
+        }
+        ev["cert"] = json!(cert);
+    }
     match catch(AssertUnwindSafe(|| op.eval(ua, ub))) {
         Ok(c) => {
             let cb = u256_big(&c);
@@ -107,9 +127,18 @@ pub fn run_ops(seed: u64, thorough: bool, out: &mut Vec<Value>) {
     for (name, op) in OPS.iter() {
         if *name == "Pow" {
             // integer evaluator only; small exponents so that the judge can follow with products
-            for a in first.iter().step_by(7) {
-                for e in [0u32, 1, 2] {
-                    out.push(one_eval(name, *op, a, &BigUint::from(e)));
+            let one = BigUint::from(1u8);
+            let exps: Vec<BigUint> = vec![BigUint::from(0u8), one.clone(), BigUint::from(2u8), BigUint::from(3u8), BigUint::from(255u8),
+                                          &one << 64, (&p - &one) >> 1, &p - BigUint::from(2u8), &p - &one, rnd(&mut r)];
+            let mut bases: Vec<BigUint> = first.iter().step_by(if thorough { 5 } else { 13 }).cloned().collect();
+            for v in [BigUint::from(0u8), one.clone(), BigUint::from(2u8), &p - &one] {
+                if !bases.contains(&v) {
+                    bases.push(v);
+                }
+            }
+            for a in bases.iter() {
+                for e in exps.iter() {
+                    out.push(one_eval(name, *op, a, e));
                 }
             }
             continue;
